@@ -16,7 +16,9 @@ from mistral.services import workflows as wf_service
 from mistral.services import workbooks as wb_service
 from mistral.services import adhoc_actions
 
-OVERRIDES = [('auth_enable', True, 'pecan')]
+OVERRIDES = [('auth_enable', True, 'pecan'),
+             ('enabled', False, 'cron_trigger'),
+             ('allow_action_execution_deletion', True, 'api')]
 NAME = 'r1'
 
 CALLERS = {
